@@ -1069,10 +1069,16 @@ rrul_fill_yly(echs_instant_t *restrict tgt, size_t nti, rrulsp_t rr)
 		}
 	}
 
-	/* start a period early when dates can move forward into our year */
-	if (echs_shift_dvalue(rr->shift) > 0 ||
-	    echs_shift_bday_p(rr->shift) && !echs_shift_neg_p(rr->shift) ||
-	    bi383_has_bits_p(&rr->easter)) {
+	if (tgt[GRP_CCH_OFF].y) {
+		/* the caller knows the period the proto instant is from
+		 * (it's the last one of an earlier fill), resume there */
+		y = tgt[GRP_CCH_OFF].y;
+	} else if (echs_shift_dvalue(rr->shift) > 0 ||
+		   echs_shift_bday_p(rr->shift) &&
+		   !echs_shift_neg_p(rr->shift) ||
+		   bi383_has_bits_p(&rr->easter)) {
+		/* start a period early when dates can move forward
+		 * into our year */
 		y -= rr->inter;
 	}
 
@@ -1252,7 +1258,14 @@ rrul_fill_mly(echs_instant_t *restrict tgt, size_t nti, rrulsp_t rr)
 		tmp = echs_shift_dvalue(rr->shift) +
 			echs_shift_bvalue(rr->shift) * 7 / 5;
 
-		if (tmp > 0 || bdayp && !echs_shift_neg_p(rr->shift)) {
+		if (tgt[GRP_CCH_OFF].y && tgt[GRP_CCH_OFF].m) {
+			/* the caller knows the period the proto instant is
+			 * from (it's the last one of an earlier fill),
+			 * resume there, a shifted date says nothing about
+			 * the month it was shifted from */
+			y = tgt[GRP_CCH_OFF].y;
+			m = tgt[GRP_CCH_OFF].m;
+		} else if (tmp > 0 || bdayp && !echs_shift_neg_p(rr->shift)) {
 			/* dates move forward into our month, 0B does that too,
 			 * step back at least as many months as the shift
 			 * can span (short months, a weekend to cross) */
@@ -2319,6 +2332,8 @@ ffw:
 		for (size_t i = 0UL; i < countof(wl); i++) {
 			wl[i] = proto;
 		}
+		/* we don't know about periods */
+		wl[GRP_CCH_OFF] = echs_nul_instant();
 		/* the filler also writes group stamps GRP_CCH_OFF further up */
 		if (UNLIKELY(!(nwl = rrul_fill_yly(
 				       wl, countof(wl) - GRP_CCH_OFF, filt)))) {
